@@ -169,6 +169,9 @@ func c06Case(w *fw.W, idx int, r *fw.Rand) {
 	if r.P(1, 3) {
 		cfg.DefSide = r.Pick([]string{"20", "d4 + 2", "面数 ?? 50"})
 	}
+	if r.P(1, 5) {
+		cfg.SeedLen = fw.PickT(r, []int{1, 4, 8, 15, 17, 32})
+	}
 	desc := fmt.Sprintf("cfg=%s src=%q", cfg, src)
 	w.Begin(idx, desc)
 
